@@ -1146,6 +1146,9 @@ static bool _advance_parsing(binson_parser *parser, uint8_t scan_flags, bbuf *sc
                             return false;
                         }
                     }
+                    else {
+                        state->flags = BINSON_STATE_IN_ARRAY_1;
+                    }
 
                 }
                 else {
